@@ -44,7 +44,7 @@ def run(ctx):
                         % (a, b, w.error))
     log("witness: flipping either rounding direction breaks the ledger invariant (as it must)")
     ctx.leg = "trace"
-    runs = [(16, 80, 1, "mixed"), (4, 120, 1, "dust")] if q else [(200, 150, 2, "mixed"), (40, 200, 1, "dust")]
+    runs = [(16, 80, 1, "mixed"), (4, 120, 1, "dust")] if q else [(120, 120, 3, "mixed"), (30, 160, 1, "dust")]
     ctx.params = {"runs": runs}
     states = r.distinct
     trans = r.generated
